@@ -213,10 +213,12 @@ func (dc *TraditionalDnsConn) readLoop() {
 
 	for {
 		dc.c.SetReadDeadline(time.Now().Add(dc.idleTimeout))
-		// exchange() may have armed the shorter waiting-reply deadline concurrently.
-		// Don't let the idle deadline override it, otherwise a dead connection
-		// will only be detected after the idle timeout.
-		if dc.waitingResp.Load() && dc.idleTimeout > waitingReplyTimeout {
+		// Queries are still waiting for their replies (or exchange() armed the
+		// waiting-reply deadline concurrently): the connection is not idle. The
+		// waiting-reply deadline applies, whether it is shorter (a dead connection
+		// must not only be detected after the idle timeout) or longer (an unanswered
+		// query must not be cut off by the idle timeout) than the idle deadline.
+		if dc.waitingResp.Load() {
 			dc.c.SetReadDeadline(time.Now().Add(waitingReplyTimeout))
 		}
 		r, err := dc.readResp()
